@@ -339,6 +339,18 @@ def dir_runs(shard, rec, lib, scratch):
             with open(os.path.join(d, copy_rel), "w", encoding="utf-8", newline="") as f:
                 f.write(sheets[src_rel][0])
             rec.count("identical_copies")
+        if si % 3:
+            # entries the tool cannot process, visited among / after the good ones: they are reported and skipped, and what is
+            # reported about the good files still holds of the files written for them
+            for frel in ([os.path.join("sub", "zz-legacy.css"), "zz-old.css"] if si % 3 == 1 else [os.path.join("sub", "pkg.css"), os.path.join("sub", "deeper", "x.css")]):
+                p = os.path.join(d, frel)
+                os.makedirs(os.path.dirname(p), exist_ok=True)
+                if frel.endswith("pkg.css"):
+                    os.makedirs(p, exist_ok=True)
+                else:
+                    with open(p, "wb") as f:
+                        f.write(b"/* caf\xe9 \xff\xfe */ .old { color: #777 }\n")
+            rec.count("dir_runs_with_unprocessable_entries")
         rc, out, err = clirun.run(cli_args(".", st), d, inprocess=(si % 2 == 0))
         rec.ev()
         rec.count("dir_runs")
